@@ -38,6 +38,12 @@ CHECKS["C17"] = {
     "note": "Trusted: purity of dependency/std functions classified total; the path-prefix effect classification in rules/c17.py. The manifest claims `other` rather than `proof` because of that trusted base.",
     "technique": "effect analysis on the resolved call graph; item/type walks (Freeze, static mut, thread_local); compile-pass and compile-fail type witnesses",
 }
+CHECKS["C18"] = {
+    "level": "other",
+    "text": "All paths of the binary's main (cmdline feature): exactly one stdout write, outside loops, edge-dominated by the success edge of every fallible step that can precede it, followed by no fallible step, never on a failure edge; the format template decodes to `{}` + newline and its single Display argument is — through reference plumbing only — Value::to_string of the success payload of jsonlogic_rs::apply(rule, data), rule and data being the success payloads of serde_json::from_str::<Value> on the whole first-argument text and on the data text, in that order; the data text is the second argument unless absent (defaulted to \"-\") or equal to \"-\", exactly then stdin is read to the end; every failure edge returns the residual, nothing discards a Result, no process::exit; Cargo.toml requires feature cmdline for the binary.",
+    "note": "Trusted: serde_json's serialiser/parser (valid JSON out, trailing text rejected), clap, the decoded format_args! template encoding of this toolchain. Broken pipes and non-UTF-8 argv are outside the property's quantifier.",
+    "technique": "path rules on main's MIR CFG (edge dominance, reachability after removal of an edge), def-use provenance of the printed value and of apply's arguments, manifest facts",
+}
 NOT_APPLICABLE = {}
 for i in range(1, 20):
     p = "C%02d" % i
